@@ -59,6 +59,10 @@ theorem failure_sentinels_rejected :
   have h2 := (List.all_eq_true.mp h1) s hs
   exact of_decide_eq_true h2
 
+/-- (fixed code, F53) a `nan` Hastings ratio is a failure value too: the run loop's first test rejects it.
+Before the fix `min(zeros, nan)` kept `zeros` and a `nan` ratio was ACCEPTED with probability 1. -/
+theorem nan_hastings_rejected : Sentinel.nan ∈ TTGen.C15_RunOrder.loopFailureTests := by decide
+
 /-- no operator / adaptor / integrator constructor mutates a mutable default argument (a shared list such as
 `HMCOperator(adaptors=[])` is harmless only as long as nobody appends to it) -/
 theorem mutable_defaults_not_mutated :
